@@ -3,6 +3,7 @@ pub mod c02;
 pub mod c03;
 pub mod c09;
 pub mod c10;
+pub mod c14;
 
 use crate::engine::Tier;
 
@@ -19,6 +20,7 @@ pub fn dispatch(id: &str, args: Args) -> ! {
         "C03" => c03::run(args),
         "C09" => c09::run(args),
         "C10" => c10::run(args),
+        "C14" => c14::run(args),
         _ => crate::engine::fault(&format!("unknown property {id}")),
     }
 }
